@@ -6,8 +6,9 @@ import sys
 import time
 
 VERIF = os.path.dirname(os.path.dirname(os.path.abspath(__file__)))
-EVID = os.path.join(VERIF, "evidence")
-REPLAY = os.path.join(VERIF, ".work", "replay")
+_ALT_WORK = os.environ.get("VERIF_WORK")     # self-test runs against a scratch copy: keep its evidence away from /verif/evidence
+EVID = os.path.join(_ALT_WORK, "evidence") if _ALT_WORK else os.path.join(VERIF, "evidence")
+REPLAY = os.path.join(_ALT_WORK, "replay") if _ALT_WORK else os.path.join(VERIF, ".work", "replay")
 KNOWN = os.path.join(VERIF, "known_findings.txt")
 
 
